@@ -269,11 +269,19 @@ def documented_chains():
 
 def gen_chain(rng, heavy=False, allow_aes=True, force_aes=None):
     """A chain from the quantifier's product: compressor, optional front filter, optional 7zAES."""
-    kind = rng.wpick([(3, "doc"), (5, "single"), (4, "front"), (1, "default")])
+    kind = rng.wpick([(3, "doc"), (5, "single"), (4, "front"), (1, "default"), (1, "front2")])
     if kind == "default":
         chain = None
     elif kind == "doc":
         chain = [dict(f) for f in rng.pick(documented_chains())]
+    elif kind == "front2":
+        # a cascade of three native filters (py7zr allows up to four): Delta and a branch filter in front of LZMA/LZMA2
+        comp = "LZMA2"  # (the same cascade in front of LZMA1 is written but cannot be read back by py7zr: DESIGN.md 10.5, outside the quantifiers)
+        bcj = rng.pick([b for b in BCJS if b in FRONT] or ["X86"])
+        two = [_params(rng, "DELTA", heavy), _params(rng, bcj, heavy)]
+        if rng.chance(0.5):
+            two.reverse()
+        chain = two + [_params(rng, comp, heavy)]
     else:
         comp = rng.pick(COMPRESSORS)
         chain = [_params(rng, comp, heavy)]
